@@ -15,3 +15,4 @@ def obj(cls, **fields):
 from .gen import TSmallInt
 SMALL = TSmallInt()
 from .ty import bytes_const
+from .registry import ghost_var, effect, GHOSTS, EFFECTS
